@@ -143,9 +143,9 @@ Proof.
   - intros i Hi. apply memb_In. now apply H3.
 Qed.
 
-Theorem sparse_aligned_b_sound W cols chans unw r :
-  sparse_aligned_b W cols chans unw r = true ->
-  exists sigma, sparse_sigma cols chans r = Some sigma /\ Sparse_aligned W cols chans unw sigma r.
+Theorem sparse_aligned_b_sound W sc cols chans unw r :
+  sparse_aligned_b W sc cols chans unw r = true ->
+  exists sigma, sparse_sigma cols chans r = Some sigma /\ Sparse_aligned W sc cols chans unw sigma r.
 Proof.
   unfold sparse_aligned_b. destruct (sparse_sigma cols chans r) as [sigma|]; [|discriminate].
   rewrite andb_true_iff, zll_eqb_eq, zl_eqb_eq. intros [H1 H2]. exists sigma. split; [reflexivity|]. now split.
